@@ -15,7 +15,7 @@ def sha(b):
     return hashlib.sha1(b).hexdigest()
 
 
-def run_logger(ctx, binary, data, seed, chunk, pause_ms, n):
+def run_logger(ctx, binary, data, seed, chunk, pause_ms, n, paced=False):
     d = ctx.path("run%d" % n)
     os.makedirs(d)
     logdir = os.path.join(d, "rec")
@@ -34,11 +34,13 @@ def run_logger(ctx, binary, data, seed, chunk, pause_ms, n):
     i = 0
     try:
         while i < len(data):
-            k = rng.randint(1, chunk)
+            k = chunk if paced else rng.randint(1, chunk)
             p.stdin.write(data[i:i + k])
             p.stdin.flush()
             i += k
-            if rng.random() < 0.15:
+            if paced:
+                time.sleep(0.003)          # every chunk arrives as its own read
+            elif rng.random() < 0.15:
                 time.sleep(rng.random() * 0.004)
         p.stdin.close()
     except BrokenPipeError:
@@ -92,9 +94,18 @@ def run(ctx, replay):
             if chunk == 1 and s > 3000:
                 continue
             jobs.append((data, rng.getrandbits(30), max(1, chunk), 0))
+    # many small blocks, each its own read, while the recorder is slow (it falls many blocks behind)
+    for k in range(6 if ctx.thorough() else 2):
+        nblk = rng.randint(14, 24)
+        data = bytes(rng.getrandbits(8) for _ in range(nblk * rng.randint(150, 900)))
+        jobs.append((data, rng.getrandbits(30), -(len(data) // nblk), 60))
     events = []
     for n, (data, seed, chunk, pause) in enumerate(jobs):
-        ev = run_logger(ctx, binary, data, seed, chunk, pause, n)
+        if chunk < 0:      # fixed-size paced chunks
+            ev = run_logger(ctx, binary, data, seed, -chunk, pause, n, paced=True)
+            ev["chunk"] = chunk
+        else:
+            ev = run_logger(ctx, binary, data, seed, chunk, pause, n)
         if not ev["midnight"]:
             events.append(ev)
     if not events:
